@@ -48,6 +48,15 @@ def gen(rng, quick):
                 ops.append({"op": "serde.de", "ty": ty, "in": [le(n, 8) + p[:-1]], "js": p})             # truncated
                 ops.append({"op": "serde.de", "ty": ty, "in": [le(2**40 + n, 8) + p], "js": p})          # absurd length prefix
             ops.append({"op": "serde.de", "ty": ty, "in": [p if ty not in ("sk", "vk") else le(n, 8) + p], "js": p[:-1] + [256]})   # element out of range
+    # equality of the wire types is equality of all 32 bytes (seeded change C06d-m2 ignored the last one): a random string
+    # against itself and against the string with one bit flipped in each byte position
+    for kind in ('ristretto', 'edwards'):
+        a = rng.getrandbits(256)
+        ops.append({"op": "enc.eq", "kind": kind, "in": [le(a), le(a)]})
+        ops.append({"op": "enc.eq", "kind": kind, "in": [le(0), le(0)]})
+        for j in range(32):
+            ops.append({"op": "enc.eq", "kind": kind, "in": [le(a), le(a ^ (1 << (8 * j + rng.randrange(8))))]})
+            ops.append({"op": "enc.eq", "kind": kind, "in": [le(0), le(1 << (8 * j + rng.randrange(8)))]})
     return ops
 
 
@@ -67,6 +76,22 @@ def run(ck):
         tp = os.path.join(ck.workdir, cid + ".trace.ndjson")
         run_driver(bins[cid], cid, sp, tp)
         traces.append((cid, tp))
+    # PKCS#8 documents (one extra build with ed25519-dalek's pkcs8 feature): honest, mismatched, undecodable and
+    # non-canonical embedded public keys (seeded change C16d-m2 accepted the undecodable ones)
+    pb = build_many([("s64", True, "release", ("pkcs8",))], jobs=1)
+    pcid = cfg_id("s64", True, "release", ("pkcs8",))
+    rng = ck.rng
+    pops = [{"op": "info"}]
+    for _ in range(4 if quick else 30):
+        seed = rng.getrandbits(256)
+        honest = from_le(bytes(pyed.public(seed.to_bytes(32, "little"))))
+        for pub in [honest, honest ^ (1 << 255), honest ^ 1, 2, 2**255 - 20, 2**255 - 1, 2**256 - 1, 0, 1, (1 + P) % 2**255, rng.getrandbits(256), rng.getrandbits(256)]:
+            pops.append({"op": "serde.pkcs8", "in": [le(seed), le(pub)]})
+    psp = os.path.join(ck.workdir, "script.pkcs8.ndjson")
+    write_script(psp, pops)
+    ptp = os.path.join(ck.workdir, pcid + ".trace.ndjson")
+    run_driver(pb[pcid], pcid, psp, ptp)
+    traces.append((pcid, ptp))
     ck.validate(traces)
     ev = read_trace(traces[0][1])
     ck.cov["deserialise_outcomes"] = dict(accepted=sum(1 for e in ev if e["op"] == "serde.de" and e["obs"].get("strict_ok")),
